@@ -1,8 +1,9 @@
 """Regression over all seeded changes: apply seeded/<tag>/patch.diff to a scratch worktree of /repo HEAD and run the property's
 check against it (VERIF_REPO).  usage: selftest/run_seeds.py [tag ...]   Prints one line per seed; exit 1 if any is missed."""
 import json, os, shutil, subprocess, sys
-tags = sys.argv[1:] or sorted(os.listdir('/verif/seeded'))
+tags = sys.argv[1:] or sorted(t for t in os.listdir('/verif/seeded') if os.path.isdir('/verif/seeded/' + t))
 missed = []
+results = {}
 for tag in tags:
     pid = tag.split('-')[0]
     wt = '/tmp/seedrun_%s_%d' % (tag, os.getpid())
@@ -10,14 +11,31 @@ for tag in tags:
     try:
         r = subprocess.run(['git', '-C', wt, 'apply', '--3way', '/verif/seeded/%s/patch.diff' % tag], stdout=subprocess.PIPE, stderr=subprocess.STDOUT, text=True)
         if r.returncode != 0:
-            print('%-7s patch does not apply to the current HEAD: %s' % (tag, r.stdout.strip().split('\n')[-1][:100])); continue
+            print('%-7s patch does not apply to the current HEAD: %s' % (tag, r.stdout.strip().split('\n')[-1][:100]))
+            results[tag] = {'verdict': 'patch-does-not-apply'}
+            missed.append(tag)
+            continue
         c = subprocess.run(['/verif/bin/check', pid], env=dict(os.environ, VERIF_REPO=wt), stdout=subprocess.PIPE, stderr=subprocess.STDOUT, text=True)
-        fired = c.returncode != 0 and ('VIOLATION property=%s' % pid) in c.stdout
-        print('%-7s %s' % (tag, 'caught' if fired else 'MISSED')); sys.stdout.flush()
+        vio = [l for l in c.stdout.split('\n') if l.startswith('VIOLATION property=%s' % pid)]
+        with_input = [l for l in vio if not l.rstrip().endswith('no-failing-input-found')]
+        fired = c.returncode != 0 and bool(vio)
+        results[tag] = {'verdict': 'caught' if fired else 'MISSED', 'exit': c.returncode, 'violations': len(vio), 'with_concrete_input': len(with_input),
+                        'first': vio[:1], 'what': [l.strip()[:200] for l in c.stdout.split('\n') if l.startswith('  ')][:1],
+                        'summary': [l for l in c.stdout.split('\n') if ' quick: ' in l][-1:]}
+        print('%-7s %s (%d violation lines, %d with a concrete input)' % (tag, 'caught' if fired else 'MISSED', len(vio), len(with_input))); sys.stdout.flush()
         if not fired:
             missed.append(tag)
     finally:
         subprocess.call(['git', '-C', '/repo', 'worktree', 'remove', '--force', wt])
         shutil.rmtree(wt, ignore_errors=True)
+head = subprocess.check_output(['git', '-C', '/repo', 'rev-parse', '--short', 'HEAD']).decode().strip()
+for t, r in results.items():
+    json.dump(dict(r, repo_head=head), open('/verif/seeded/%s/last_regression.json' % t, 'w'), indent=1, sort_keys=True)
+allr = {}
+for t in sorted(os.listdir('/verif/seeded')):
+    f = '/verif/seeded/%s/last_regression.json' % t
+    if os.path.exists(f):
+        allr[t] = json.load(open(f))
+json.dump(allr, open('/verif/seeded/RESULTS.json', 'w'), indent=1, sort_keys=True)
 print('missed:', missed)
 sys.exit(1 if missed else 0)
